@@ -12,7 +12,8 @@ EXTENDS Paths, Json
 
 DirKinds == {"unset", "rel", "nested", "abs"}
 Shapes   == {"direct", "helper1", "helper3", "closure", "nontest", "nontest2", "deep40", "deep100", "subtest", "subtest2",
-             "otherfile"}   \* through a helper declared in another *_test.go file of the package
+             "otherfile",   \* through a helper declared in another *_test.go file of the package
+             "dotfile"}     \* ... whose name has a dot of its own (pay.v2_test.go)
 Variants == {"", "trimpath", "deep", "deep-trimpath",
              "envtrimpath"}   \* plain build, GOFLAGS=-trimpath in the environment of the test run
 Cwds     == {"pkg", "foreign"}
@@ -30,7 +31,7 @@ DirVal(k) == CASE k = "unset" -> "" [] k = "rel" -> "relsnaps" [] k = "nested" -
 CfgOf(c)  == [dir |-> DirVal(c.dir), filename |-> c.filename, ext |-> c.ext]
 TDirOf(c) == IF c.variant \in {"deep", "deep-trimpath"} THEN "/PKG/sub/deep" ELSE "/PKG"
 \* the calling test file is the innermost *_test.go frame
-TBaseOf(c) == IF c.shape = "otherfile" THEN "other_test" ELSE "main_test"
+TBaseOf(c) == CASE c.shape = "otherfile" -> "other_test" [] c.shape = "dotfile" -> "pay.v2_test" [] OTHER -> "main_test"
 TestOf(c) == CASE c.shape = "subtest" -> "TestA/x" [] c.shape = "subtest2" -> "TestA/x/y" [] OTHER -> "TestA"
 Loc(c) == IF IsStandalone(c.api) THEN StandalonePath(CfgOf(c), TDirOf(c), TestOf(c), c.api, 1)
           ELSE MultiPath(CfgOf(c), TDirOf(c), TBaseOf(c))
